@@ -107,7 +107,34 @@ def c11(k, ctx):
     ctx.assumptions = ["TLC 1.8 + Json/IOUtils", "harness reports Option<usize> as -1/value verbatim"]
 
 
-PIPELINES = {"C11": c11, "C02": c02, "C09": c09, "C17": c17}
+def c08(k, ctx):
+    ctx.rule = ("Write cases: one matrix x padding through alist()/alist_no_padding()/write_alist and parsed back (exhaustive over all matrices up to "
+                "3x3 quick / 3x4 thorough, random matrices up to 40x60 of densities 0..100% with empty rows/columns); Parse cases: valid texts, "
+                "byte/line/token mutations of valid texts (CRLF, tabs, -1, 99999, 1e3, out-of-range indices, truncation, non-ASCII) and random token soups; "
+                "non-trivial = distinct Write matrices with at least one empty row or column or irregular weights, plus distinct Parse texts that the model parser rejects or that contain padding zeros")
+    ctx.tlc_mc("MC_Alist", "MC_Alist_thorough.cfg" if ctx.thorough else "MC_Alist.cfg")
+    ctx.tlc_mc("MC_Alist", "MC_Alist_neg.cfg", expect_violation=True)     # no range check in the parser (as found, D2)
+    ctx.tlc_mc("MC_Alist", "MC_Alist_neg2.cfg", expect_violation=True)    # padding count underflow (as found, D1)
+    ctx.vh("gen", "i2s")
+    recs, rej = ctx.validate("Trace_C08", cfg="Trace_C08.cfg")
+    ctx.require_events("Write", "Parse")
+    for r in recs:
+        if r["o"] != "ok":
+            continue
+        if r["e"] == "Write":
+            w = [len(c) for c in r["cols"]]
+            if 0 in w or len(set(w)) > 1:
+                ctx.nontrivial_keys.add(k.key("W", r["nr"], r["nc"], r["cols"], r["padded"]))
+        elif r["pv"] == "err" or any(0 in ln for ln in r["lines"][4:]):
+            ctx.nontrivial_keys.add(k.key("P", r["lines"]))
+    ctx.extra["parse_outcomes"] = {v: sum(1 for r in recs if r["e"] == "Parse" and r.get("pv") == v) for v in ("ok", "err")}
+    ctx.extra["panics"] = sum(1 for r in recs if r["o"] != "ok")
+    ctx.samples = [k.sample_case(recs, 40), k.sample_case(recs, recs[-1]["i"] - 50)]
+    ctx.assumptions = ["TLC 1.8 + Json/IOUtils", "harness tokeniser: lines split on \\n, tokens on Unicode whitespace, digit strings -> integers (as the format defines)",
+                       "declared dimensions above 20000 are not fed to the parser (property: moderate declared dimensions)"]
+
+
+PIPELINES = {"C08": c08, "C11": c11, "C02": c02, "C09": c09, "C17": c17}
 NOT_YET = {}
 
 
